@@ -79,6 +79,11 @@ def run(ctx):
     os.makedirs(tdir, exist_ok=True)
     for i in range(3):
         open(os.path.join(tdir, "f%d" % i), "w").close()
+    # entries whose stat() fails (dangling links, a link loop), a sub-directory, a link to a file: the listing still releases everything
+    for nm, tgt in (("dangling1", "/no/such/target"), ("dangling2", "f-gone"), ("loop", "loop"), ("goodlink", "f0")):
+        if not os.path.lexists(os.path.join(tdir, nm)):
+            os.symlink(tgt, os.path.join(tdir, nm))
+    os.makedirs(os.path.join(tdir, "sub"), exist_ok=True)
     names = ["%s_r%d" % (prefix, i) for i in range(1, 5000)]
     try:
         rc, out, to = run_driver([exe, sp, tp, tdir, prefix], timeout=600)
